@@ -665,3 +665,5 @@ def shared_files(chk, repo, rule):
                "with counters at zero and an empty FMMU map" if not ok else
                "in the else branch of the rmdir attempt")
 
+# added rules (appended to the explanation the evidence file carries)
+EXPLANATION += (" " + "Added during the build (DESIGN.md 4.31, second table): (R23.6) effect rule - every file-system operation of ParallelEtherCat on the lock area is one of the protocol's own (method, operation, target) triples.")
